@@ -368,6 +368,42 @@ def writeAll (sp : Sp) : St → List Loc → List Nat → St
 def copyFromReals (sp : Sp) (st : St) (reals : List Nat) : St :=
   writeAll sp st (valueLocations sp) reals
 
+/-! ### value locations with the proposed repair of F32
+
+`notes/C09-fix-F32.diff` makes the helpers of StateSpace.cpp descend only into objects that really are
+`CompoundStateSpace`s (`dynamic_cast`); a wrapper is then an opaque leaf whose doubles are enumerated through its own
+`getValueAddressAtIndex`, whatever it wraps.  The driver uses these definitions when the check has observed the
+repaired behaviour on the code under test (header `copy wc=fixed`), the ones above otherwise (`copy wc=ub`). -/
+
+def leafLocsF (sp : Sp) (chain : List Nat) : List Loc :=
+  if (addrAtIndex sp 0).isSome then
+    (List.range (countFrom (addrAtIndex sp) (nReals sp + 1) 0)).map (fun k => ⟨chain, k⟩)
+  else []
+
+mutual
+def locsF : Sp → List Nat → List Loc
+  | .compound _ cs, chain => locsLF cs chain 0
+  | .real nm n, chain => leafLocsF (.real nm n) chain
+  | .so2 nm, chain => leafLocsF (.so2 nm) chain
+  | .so3 nm, chain => leafLocsF (.so3 nm) chain
+  | .time nm, chain => leafLocsF (.time nm) chain
+  | .discrete nm, chain => leafLocsF (.discrete nm) chain
+  | .wrapper nm s, chain => leafLocsF (.wrapper nm s) chain
+def locsLF : List Sp → List Nat → Nat → List Loc
+  | [], _, _ => []
+  | c :: cs, chain, i => locsF c (chain ++ [i]) ++ locsLF cs chain (i + 1)
+end
+
+def valueLocationsF : Sp → List Loc
+  | .wrapper _ s => valueLocationsF s
+  | sp => locsF sp []
+
+def copyToRealsF (sp : Sp) (st : St) : List Nat :=
+  (valueLocationsF sp).map (fun loc => readBits st (resolve sp loc))
+
+def copyFromRealsF (sp : Sp) (st : St) (reals : List Nat) : St :=
+  writeAll sp st (valueLocationsF sp) reals
+
 /-! ### substate locations by name -/
 
 mutual
